@@ -556,6 +556,21 @@ Fixpoint store_elements (fx : bool) (blocks : list (list aelem * list aelem)) (m
   | (n, c) :: r => res_bind (add_tag_delta fx n c m) (fun m' => store_elements fx r m')
   end.
 
+(* Elements.validate (added to StoreElements / StoreBlocks by the C13 fix cb2a6f1, present when
+   fx = true): the posted list, taken as a whole and before any read or write, must not have two
+   elements at one position nor an element that repeats a tag; otherwise the request is a
+   client error. *)
+Fixpoint nodupb (l : list N) : bool :=
+  match l with
+  | [] => true
+  | x :: r => negb (mem x r) && nodupb r
+  end.
+Definition elements_valid (es : list aelem) : bool :=
+  nodupb (map a_pos es) && forallb (fun e => nodupb (a_tags e)) es.
+Definition post_elements (fx : bool) (blocks : list (list aelem * list aelem)) : res tmap :=
+  if fx && negb (elements_valid (List.concat (map fst blocks))) then Err
+  else store_elements fx blocks [].
+
 (* ------------------------------------------------------------------------------------ *)
 (* (6) JSON bodies: decoders are oracles; the post-decode checks are modelled. *)
 
@@ -611,7 +626,7 @@ Definition handle (gunzip : bytes -> res bytes) (fx : bool) (r : request) (st : 
   | RIndex l dec => handle_index fx l dec st
   | RIndices dec => handle_indices dec st
   | RMappings dec => handle_mappings fx dec st
-  | RElements blocks => of_res st (store_elements fx blocks [])
+  | RElements blocks => of_res st (post_elements fx blocks)
   | RRoi dec => handle_roi fx dec st
   | RKeyValue k body => handle_kv k body st
   | RNeuron isnum dec k => handle_nj isnum dec k st
